@@ -77,10 +77,9 @@ def run_bounded(ct, gen, clauses=None, cond=None, max_fail=5, budget_s=None):
         if r == 'skip':
             continue
         n += 1
-        key = repr(sorted(args.items()))
-        distinct.add(hash(key))
+        distinct.add(hash(tuple(sorted((k, v if isinstance(v, (int, str, tuple, type(None))) else repr(v)) for k, v in args.items()))))
         if len(samples) < 3:
-            samples.append({k: repr(v) for k, v in args.items()})
+            samples.append({k: (repr(v) if not (isinstance(v, int) and abs(v) > 10 ** 60) else '<int of %d bits>' % v.bit_length()) for k, v in args.items()})
         if r is not None:
             fails.append(r)
             if len(fails) >= max_fail:
